@@ -63,6 +63,11 @@ TEXT = {
         note="Liveness is checked as bounded liveness (sync count bound), never by wall-clock. Health is a single Ready condition plus observedGeneration.",
         technique="bounded-exhaustive enumeration of fair histories executed on the real code (explicit-state, linear schedules x injection index)",
     ),
+    "C07": dict(
+        level="Bounded-exhaustive model checking over rollout states: every combination of revision assignment, child content and child health (a superset of the reachable rollout states, each built with the controller's own constructors) is synced once by the real controller; oracle = clauses written from the statement: M0 no double claim, M1 at most one real move and in hook order, M2 only through an open gate (observed, up to date, status checks, observedGeneration for RollingInPlace), M3 every child reconciled to the content of the revision it is assigned to (incl. recreation at an old revision), M4 non-revisioned fields reach all children at once, M5 Updated condition Waiting/Progressing/OnLatest.",
+        note="One sync per state (histories are C08/C09's subject). Children carry one template version field and one non-revisioned field.",
+        technique="bounded-exhaustive enumeration of protocol states, one real transition from each (explicit-state, superset of reachable states)",
+    ),
 }
 
 PENDING_REASON = "check not built yet in this session (planned in DESIGN.md §4); no claim is made until its check runs clean on the unchanged tree"
